@@ -189,6 +189,8 @@ HashClauses(ev, Q) ==
   \* content = abstract state + the label map in use (the digest is over the real labels)
   {<<"equal_content_equal_hash", \A d \in DOMAIN seen : seen[d] = <<ev.lab, Q>> => d = ev.digest>>,
    <<"different_content_different_hash", ev.digest \in DOMAIN seen => seen[ev.digest] = <<ev.lab, Q>>>>}
+  \cup (IF Has(ev, "digest_reordered")
+        THEN {<<"hash_independent_of_dictionary_key_order", ev.digest_reordered = ev.digest>>} ELSE {})
 
 ---------------------------------------------------------------------------
 TInit == /\ ti = 1 /\ li = 1 /\ store = <<>> /\ nbad = 0 /\ nev = 0 /\ seen = <<>>
